@@ -11,17 +11,18 @@ import common, gen2, lpdump, e1misc, props
 LEVEL = "proof"
 EXPLANATION = (
     "Props/C16.v: the rows/columns of encode_mef are satisfied exactly by (x, err) with 0 <= x, err <= ub (integral for int), conservation at "
-    "every node of the model graph with in- and out-edges, err = 0 on ignored edges and err >= |f - x| on the others (mef_enc_exact, both "
-    "directions); hence objective >= scaled L1 distance (+ sparsity term) with equality attainable (mef_objective_lower_bound / "
-    "mef_tight_assignment), so an optimal assignment of the LP is a closest flow among flows bounded by ub (mef_optimal_is_closest, relative "
-    "to the solver specification); the corrected graph has the same node and edge lists (mef_same_graph); the few-values model contains all rows "
-    "of the first model plus the budget row, so any solution is a flow within (1+eps)*opt (mef2_within_budget). "
-    "_partial: that the bound ub = w_max*|E| loses no optimum (mef_bound_no_loss) is NOT proved in Coq; it is sampled by E2 whose exhaustive "
-    "minimum is taken over flows bounded by the sum of the charged values (a bound argued on paper, see props.min_l1_flow).")
+    "every node of the model graph with in- and out-edges, err = 0 on ignored edges and err >= |f - x| on the others (C16_rows_exact, both "
+    "directions); hence objective >= scaled L1 distance (+ sparsity term) with equality attainable, so an optimal assignment is a closest flow "
+    "among flows within the bounds; the bound ub = w_max*|E| loses no optimum (C16_bound_loses_no_optimum, MefBound.v: contraction to a circulation, "
+    "cut argument, lowering along simple cycles), so an optimal assignment is a closest flow among ALL non-negative flows with conservation where "
+    "required (C16_optimal_solution_is_closest_flow = the full statement, relative to the solver specification; integral flows for int weights); "
+    "the corrected graph has the same node and edge lists (C16_same_graph); the few-values model contains all rows of the first model plus the "
+    "budget row (C16_few_values_within_budget); the E1 comparison is decided by the verified checker (C16_lp_comparison_is_verified). "
+    "Premises of the full statement checked per instance: edge list duplicate-free, weights and scalings non-negative.")
 ASSUMPTIONS = ["HiGHS status kOptimal => returned assignment satisfies the rows within 1e-9 and is optimal (solver specification, DESIGN §4)",
                "values are integers or dyadic floats; reported error/objective compared with tolerance 1e-6",
                "exhaustive minimum over INTEGER flows (total unimodularity of the conservation system makes it the real optimum for integer data; not proved in Coq)",
-               "ub = w_max*|E| loses no optimum (paper argument; sampled by E2, not proved)"]
+               "premises of C16_optimal_solution_is_closest_flow (duplicate-free edge list, non-negative weights and scalings) are checked on every instance"]
 TRUSTED = ["models: coq/theories/MiscEnc.v; LP read-back harness/lpdump.py, harness/e1misc.py; Python oracles harness/props.py (is_flow, flow_cost, min_l1_flow)"]
 SO = {"threads": 1}
 TOL = 1e-6
@@ -258,6 +259,12 @@ def one_case(ctx, kw, info, rep, count=True):
     except Exception as e:
         ctx.report("MinErrorFlow raised " + repr(e), rep); return None
     e1_compare(ctx, m, caps, rep)
+    # premises of the full optimality theorem (Props/C16.v C16_optimal_solution_is_closest_flow) on the model graph
+    es = list(m.G.edges())
+    prem = len(set(es)) == len(es) and all(m.G[u][v].get(m.flow_attr, 0) >= 0 for u, v in es) and all(v >= 0 for v in m.edge_error_scaling.values())
+    ctx.count("theorem_premises", "hold" if prem else "violated")
+    if not prem:
+        ctx.report("premise of C16_optimal_solution_is_closest_flow violated on a generated instance (duplicate edge / negative weight or scaling)", rep, concrete=False)
     if not ok:
         st = m.solve_statistics.get('milp_solver_status')
         if st == "kInfeasible":
